@@ -269,7 +269,17 @@ def c03_3(ctx):
                           sample={"handler": fi.qualname, "read": nm, "bound": limit, "read_for_lengths": lens.fmt()})
             if nm.endswith("int_from_script_bytes") and fi.module.relpath in (INTOPS, MISCOPS, CHECKSIG, STACKOPS):
                 sites += 1
-                ctx.bad("raw-int-decode:%s" % fi.name, ctx.where(fi, e.node), "%s decodes a script number directly, bypassing the 4-byte bound" % fi.name)
+                # a handler that decodes an item itself owes what vm.pop_int() does: the MINIMALDATA requirement and the size bound.
+                # Decided on the call as the handler makes it (locals substituted), whatever the rest of the handler looks like.
+                from sa.core import Ctx as _Ctx
+                kws = {k.arg: norm(k.value) for k in e.call.keywords if k.arg}
+                rm = kws.get("require_minimal", norm(e.call.args[1]) if len(e.call.args) > 1 else "")
+                if not ("VERIFY_MINIMALDATA" in rm and "flags" in rm):
+                    _Ctx.bad(ctx, "raw-int-decode-minimal:%s" % fi.name, ctx.where(fi, e.node),
+                             "%s decodes a script number with %s(%s) without require_minimal = the MINIMALDATA flag: a non-minimally encoded operand is accepted under MINIMALDATA" % (fi.name, nm, ", ".join(sorted(kws)) or "item"))
+                lens = sym.may_set(e.reach, U, E)
+                if not lens.issubset(iv(None, limit)):
+                    ctx.bad("raw-int-decode:%s" % fi.name, ctx.where(fi, e.node), "%s decodes a script number directly for operand lengths %s, bypassing the %d-byte bound" % (fi.name, lens.fmt(), limit))
     f = ctx.func(INTOPS, "pop_check_bounds")
     const = ru.const_resolver(ctx, f, set())
     w = GuardWalker(SymbolicAtomizer(ru.subject({"len(vm[-1])", "len(vm.stack[-1])"}), const))
@@ -737,6 +747,41 @@ def c03_13(ctx):
     cache_scope(ctx)
 
 
+# ------------------------------------------------------------------ C03.17  NULLFAIL looks at every signature of the operation
+def c03_17(ctx):
+    import re as _re
+    from sa.ef import writes_in
+    f = ctx.func(CHECKSIG, "checksigs")
+    code = ctx.interp.module("pycoin.satoshi.errno").ns.get("NULLFAIL")
+    if not isinstance(code, int):
+        raise AnalysisError("errno.NULLFAIL not found")
+    w = sym.walk(ctx, f)
+    hits = [e for e in w.exits if e.kind == "raise" and isinstance(e.value, ast.Call) and any((isinstance(a, ast.Constant) and a.value == code) or norm(a).endswith("NULLFAIL") for a in e.value.args)]
+    if not hits:
+        raise Undecided("checksigs raises no error with errno.NULLFAIL itself; this rule does not read where it went")
+    sigs = f.params()[1]
+    mutated = set()
+    for wr in writes_in(f):
+        r = wr.node.func.value if isinstance(wr.node, ast.Call) and isinstance(wr.node.func, ast.Attribute) else None
+        if isinstance(r, ast.Name):
+            mutated.add(r.id)
+    for e in hits:
+        ops = [o for o in (gi.f_opaques(e.cond) if e.cond not in (True, False) else []) if isinstance(o, str) and o.startswith("any{")]
+        scans = [_re.search(r" for \w+ in (.*)\}$", o) for o in ops]
+        scans = [m.group(1) for m in scans if m]
+        if not scans:
+            raise Undecided("checksigs: the NULLFAIL error is not guarded by an `any non-empty signature` scan this rule reads")
+        for it_ in scans:
+            names = set(_re.findall(r"[A-Za-z_]\w*", it_))
+            if it_ in (sigs, "list(%s)" % sigs, "tuple(%s)" % sigs) and sigs not in mutated:
+                ctx.ok("nullfail-scans-all", sample={"scan": it_})
+            elif names & mutated:
+                ctx.bad("nullfail-scans-all", ctx.where(f, e.node), "NULLFAIL scans `%s`, a list checksigs consumes while matching: signatures that already matched a key are not looked at, "
+                        "but consensus fails the operation unless EVERY signature argument is empty" % it_[:80], sample={"scan": it_[:120]})
+            else:
+                ctx.undecided("nullfail-scans-all", ctx.where(f, e.node), "NULLFAIL scans `%s`; this rule only reads a scan of the signature list the operation was called with" % it_[:80])
+
+
 # ------------------------------------------------------------------ reference transcriptions (spec/ref_vm.py)
 REF_MODULES = (INTOPS, STACKOPS, MISCOPS, CHECKSIG, COND, VM, BVM, SEG, P2S, BSC, "pycoin/coins/bitcoin/make_instruction_lookup.py")
 _REF = None
@@ -910,6 +955,7 @@ OBLIGATIONS = [
        breaks_if="two CHECKSIGs sharing a hash type where the second signature appears in the script (FindAndDelete)"),
     Ob("C03.16", "CLTV/CSV keep their operand as encoded; every key compared passes the encoding flags; native witness spends need an empty scriptSig", c03_16, floor=7, engines="SYM",
        breaks_if="0x02 0x0100 CLTV; OP_0 OP_0 CHECKSIG NOT under STRICTENC; scriptSig OP_1 OP_DROP on P2WPKH"),
+    Ob("C03.17", "NULLFAIL scans every signature the operation was called with", c03_17, floor=1, engines="SYM,EF", breaks_if="CHECKMULTISIG where an early signature matches and a later one fails"),
     Ob("C03.12", "CLTV / CSV comparison rules (masked values, eras, preconditions)", guarded(c03_12), floor=9, engines="DF,GI", breaks_if="nSequence with unused upper bits set"),
     Ob("C03.15", "every opcode handler, VM / conditional-stack method and P2SH / segwit / solution-checker function equals its reviewed reference transcription (canonical forms)", c03_15, floor=120, engines="SYM",
        breaks_if="any script exercising the changed handler"),
